@@ -35,7 +35,7 @@ CHECKS = {
             "ResponderModel in vlib/models.py is the oracle; NSEC owner compared per service; ANY-on-host and NSEC known answers soundness only.", "2/C03"),
     "C04": ("exploration", "runtime monitoring: online trace checker on ServiceListener callbacks ((A R)* A? per instance) plus live-set == cache invariant at quiescent points, in the virtual-time simulator",
             "Generated histories of injected responses and clock advances (real purge timer) against real AsyncServiceBrowsers; callbacks are checked online for alternation, for agreement with the cached PTR set at every quiescent point, and for visibility of the triggering datagram's records inside add_service.",
-            "Stays inside the stated restrictions (exact owner spelling, unrelated types, no case-variants in one datagram, no browser start over expired-unpurged PTRs).", "2/C04"),
+            "Browsed types are unrelated and no case-variants share a datagram; owner names are spelled as browsed, except that one history in eight also carries pointers owned by a subtype of the browsed type (known finding F44 is reported there); browsers are also started over expired, unpurged pointers; blocking ServiceBrowser runs in real time.", "2/C04"),
     "C08": ("exploration", "runtime monitoring: offline trace checker over the simulated wire (goodbye completeness, 'never after' resurrection rule) across injected-query schedules around the unregister instant",
             "Queries are injected on a grid of offsets around unregister/close so that answers sit in the immediate, aggregation or protected queue; the host's wire trace is decoded by the independent parser and checked for exactly three complete goodbyes and for no positive-TTL copy of a withdrawn record afterwards (5 s observation).",
             "Unregister issued after the registration's announcement task finished; address/NSEC records are only in scope when the host name is not shared with a remaining service.", "2/C08"),
@@ -67,7 +67,7 @@ CHECKS = {
             "Lookups are started against cache states from {SRV,TXT,A,AAAA} x {absent,fresh,stale,expired-unpurged} with missing records arriving on a grid of offsets up to and past the deadline; return time, success criterion, the reported fields (replayed from exactly the records handed to the object, skipping expired ones), cache-only path without transmissions and QU-then-QM progression are checked.",
             "The read instant is observed by a wrapper installed from the harness; a flush-bit record legitimately re-stamps other cached records for one second.", "2/C18"),
     "C07": ("fault_enumeration", "runtime monitoring with single-loss fault enumeration: multi-host scenarios of real instances in the virtual-time simulator, re-run once per dropped datagram under identical seeds; bounded-settling oracle on browser live sets and lookups started from Added callbacks",
-            "Each scenario (2..5 real instances, registrations/updates/unregistrations/closes at arbitrary times, browsers started before/during/after, 0..100 ms per-receiver jitter, 0..20 % duplication) is run loss-free and then once per chosen datagram with that datagram dropped for all or one receiver (quick: stratified sample per datagram class; thorough: every datagram). 15 s after the last operation every browser must report exactly the registered instances and lookups from Added callbacks must have resolved advertised data.",
+            "Each scenario (2..5 real instances, registrations/updates/unregistrations/closes at arbitrary times, browsers started before/during/after, 0..100 ms per-receiver jitter, 0..20 % duplication) is run loss-free and then once per chosen datagram with that datagram dropped for all or one receiver (quick: stratified sample per datagram class; thorough: every datagram). 15 s after the last operation every browser must report exactly the registered instances and lookups from Added callbacks must have resolved advertised data. A second family puts a multi-homed IPv6 responder on two simulated links (one sender socket per interface, multicast routed by destination scope id as the kernel does) with a browser host on each link; both must converge.",
             "'Eventually' is restated as 15 virtual seconds after the last scripted operation; exactly one loss per run; lookup fields may come from different advertised versions of an updated service; an empty TXT is accepted only when the TXT record's TTL may have run out.", "2/C07"),
 }
 
